@@ -176,7 +176,38 @@ pub fn check_input(path: &Path, text: &str, origin: &Value, stats: &mut Stats) -
     }
 }
 
-fn mutate_tokens(t: &mut Tape, text: &str) -> (String, String) {
+/// Replace one token by another token of the same lexical kind taken from the same file (keeps the
+/// text syntactically valid, so the checker — not the parser — decides).
+pub fn mutate_same_kind(t: &mut Tape, text: &str) -> (String, String) {
+    let toks = scan::tokens(text);
+    let interesting: Vec<&scan::Token> = toks
+        .iter()
+        .filter(|k| {
+            matches!(
+                k.kind,
+                scan::Kind::Lower | scan::Kind::Upper | scan::Kind::Ctor | scan::Kind::Dtor | scan::Kind::Int | scan::Kind::Str
+            )
+        })
+        .collect();
+    if interesting.len() < 2 {
+        return (text.to_string(), "none".into());
+    }
+    let a = interesting[t.below(interesting.len())];
+    let same: Vec<&&scan::Token> = interesting
+        .iter()
+        .filter(|b| b.kind == a.kind && text[b.start..b.end] != text[a.start..a.end])
+        .collect();
+    if same.is_empty() {
+        return (text.to_string(), "none".into());
+    }
+    let b = same[t.below(same.len())];
+    (
+        format!("{}{}{}", &text[..a.start], &text[b.start..b.end], &text[a.end..]),
+        format!("replace {:?} `{}` at {} by `{}`", a.kind, &text[a.start..a.end], a.start, &text[b.start..b.end]),
+    )
+}
+
+pub fn mutate_tokens(t: &mut Tape, text: &str) -> (String, String) {
     let items = scan::scan(text);
     let toks: Vec<&scan::Token> = items.iter().filter_map(|i| if let Item::Tok(t) = i { Some(t) } else { None }).collect();
     if toks.is_empty() {
